@@ -431,7 +431,15 @@ func NodeStartPos(node *Node) token.LnColPos {
 		return node.AttrExpr().Start
 
 	case TypeIndexExpr:
+		if node.IndexExpr().Obj == nil { // object-less form .[i]
+			if len(node.IndexExpr().LBracket) > 0 {
+				return node.IndexExpr().LBracket[0]
+			}
+			return token.InvalidLnColPos
+		}
 		return node.IndexExpr().Obj.Start
+	case TypeInExpr:
+		return node.InExpr().LHS.StartPos()
 
 	case TypeUnaryExpr:
 		return node.UnaryExpr().OpPos
